@@ -15,6 +15,14 @@ func main() {
 	if r := os.Getenv("ZSYM_REPO"); r != "" {
 		repoDir = r
 	}
+	// the framework directory: where check.sh lives (= the working directory)
+	if v := os.Getenv("ZSYM_VERIF"); v != "" {
+		verifDir = v
+	} else if wd, err := os.Getwd(); err == nil {
+		if _, err := os.Stat(wd + "/harness/lib/vlib.go"); err == nil {
+			verifDir = wd
+		}
+	}
 	if len(os.Args) < 2 {
 		fmt.Fprintln(os.Stderr, "usage: zsym run|check|replay ...")
 		os.Exit(2)
